@@ -24,6 +24,7 @@ def universe():
     add("nm1", {"$i64": "-1"}); add("nm1", {"$i128": "-1"}); add("nm1", {"$f64": "-1.0"})
     add("n2p53p1", {"$i64": str(2**53 + 1)}); add("n2p53p1", {"$u128": str(2**53 + 1)}); add("n2p53", {"$f64": str(float(2**53))})
     add("n2p64", {"$u128": str(2**64)}); add("n2p64", {"$i128": str(2**64)}); add("n2p64", {"$f64": repr(float(2**64))})
+    add("nm1h", {"$f64": "-1.5"}); add("nmh", {"$f64": "-0.5"}); add("nm2", {"$i64": "-2"}); add("nm2", {"$f64": "-2.0"}); add("nm2h", {"$f64": "-2.5"}); add("n1h", {"$f64": "1.5"}); add("n2", {"$u64": "2"})
     add("nhalf", {"$f64": "0.5"}); add("nan", {"$f64": "nan"}); add("nan", {"$f64": "nan"}); add("inf", {"$f64": "inf"})
     add("bt", True); add("bf", False); add("none", None); add("undef", {"$undef": 1})
     add("sa", "a"); add("sa", {"$safe": "a"}); add("sb", "b"); add("se", ""); add("s1", "1")
@@ -36,11 +37,13 @@ def universe():
     return u
 
 
-KEYENC = {"i1": {"i64": {"$i64": "1"}, "u64": {"$u64": "1"}, "i128": {"$i128": "1"}, "u128": {"$u128": "1"}},
+KEYENC = {"i0": {"i64": {"$i64": "0"}, "u64": {"$u64": "0"}, "i128": {"$i128": "0"}, "u128": {"$u128": "0"}},
+          "i1": {"i64": {"$i64": "1"}, "u64": {"$u64": "1"}, "i128": {"$i128": "1"}, "u128": {"$u128": "1"}},
           "im1": {"i64": {"$i64": "-1"}, "i128": {"$i128": "-1"}},
           "i2p64": {"u128": {"$u128": str(2**64)}, "i128": {"$i128": str(2**64)}},
           "sa": {"owned": "a", "borrowed": {"$str": "a"}}, "s1": {"owned": "1"}, "bt": {"bool": True}}
-VALENC = {"i1": {"i64": {"$i64": "1"}, "u64": {"$u64": "1"}, "i128": {"$i128": "1"}, "u128": {"$u128": "1"}},
+VALENC = {"i0": {"i64": {"$i64": "0"}, "u64": {"$u64": "0"}, "i128": {"$i128": "0"}, "u128": {"$u128": "0"}},
+          "i1": {"i64": {"$i64": "1"}, "u64": {"$u64": "1"}, "i128": {"$i128": "1"}, "u128": {"$u128": "1"}},
           "im1": {"i64": {"$i64": "-1"}, "i128": {"$i128": "-1"}},
           "i2p64": {"u128": {"$u128": str(2**64)}, "i128": {"$i128": str(2**64)}},
           "sa": {"owned": "a", "borrowed": "a"}, "s1": {"owned": "1"}, "bt": {"bool": True}}
